@@ -39,8 +39,22 @@ META = {
 KINDS = ['G', 'Gn', 'L', 'Ln', 'P', 'H', 'CG', 'CGn', 'T']
 
 
+def plain(kinds_dims):
+    """the composition without its reduced wrappers: a ReducedPopulationModel with nothing fixed ('R:<kind>' around one sub-model, the marker
+    ('RTOP', 0, 0) around the whole model) is by C08 the wrapped model itself, so the published layout and the specification are the same"""
+    return tuple((k[2:] if k.startswith('R:') else k, d, nc) for k, d, nc in kinds_dims if k != 'RTOP')
+
+
 def build_model(chi_mod, kinds_dims, n_ids):
     subs = []
+    top = any(k == 'RTOP' for k, _, _ in kinds_dims)
+    wrapped = [k.startswith('R:') for k, _, _ in kinds_dims if k != 'RTOP']
+    if top or any(wrapped):
+        inner = [(k[2:] if k.startswith('R:') else k, d, nc) for k, d, nc in kinds_dims if k != 'RTOP']
+        parts = [build_model(chi_mod, (kd,), n_ids) for kd in inner]
+        parts = [chi_mod.ReducedPopulationModel(m_) if w_ else m_ for m_, w_ in zip(parts, wrapped)]
+        m = parts[0] if len(parts) == 1 else chi_mod.ComposedPopulationModel(parts)
+        return chi_mod.ReducedPopulationModel(m) if top else m
     for kind, d, ncov in kinds_dims:
         if kind in ('G', 'Gn'):
             m = chi_mod.GaussianModel(n_dim=d, centered=(kind == 'G'))
@@ -64,6 +78,7 @@ class Layout(object):
     """the published order of the flat vector for a composition, and the specification built on it"""
 
     def __init__(self, kinds_dims, n_ids):
+        kinds_dims = plain(kinds_dims)
         self.kd = kinds_dims
         self.N = n_ids
         self.D = sum(d for _, d, _ in kinds_dims)
@@ -306,6 +321,7 @@ def check_config(chi_sym, kinds_dims, n_ids):
         wn = [(i_ + ' ' + n_) if i_ else n_ for n_, i_ in zip(want_names, want_ids)]
         out.append(('names.with-ids', list(hll.get_parameter_names(include_ids=True)) == wn, 'prefixed names'))
         out.append(('names.top', list(hll.get_parameter_names(exclude_bottom_level=True)) == want_names[lay.n_bottom:], 'population names'))
+        out.append(('names.top', list(hll.get_parameter_names(exclude_bottom_level=True, include_ids=True)) == want_names[lay.n_bottom:], 'population names (no ID to prefix) when both naming options are used'))
     except Exception as ex:
         out.append(('names.map', False, 'raises %r' % (ex,)))
     # ---- posterior
@@ -514,6 +530,9 @@ def compositions(tier):
     if tier == 'thorough':
         trip_kinds = [s for s in short if s[1] == 1]
         out += list(itertools.product(trip_kinds, repeat=3))[::7]
+    # reduced wrappers with nothing fixed: around a single model, around one part of a composition, around the whole composition
+    out += [(('R:Gn', 1, 0),), (('R:Ln', 2, 0),), (('R:CGn', 1, 1),), (('R:P', 1, 0), ('Gn', 1, 0)), (('R:Ln', 1, 0), ('P', 1, 0)), (('G', 1, 0), ('R:Gn', 1, 0)),
+            (('Gn', 1, 0), ('H', 1, 0), ('RTOP', 0, 0)), (('Ln', 1, 0), ('RTOP', 0, 0)), (('R:Gn', 1, 0), ('L', 1, 0), ('RTOP', 0, 0))]
     return out
 
 
